@@ -1,4 +1,5 @@
 """C19 — planner logs yield exactly the plan's steps, in order."""
+import concurrent.futures
 import json
 import random
 import string
@@ -272,7 +273,7 @@ def build_inputs(rng, tier):
     stride = 1 if tier == "thorough" else 7
     for n in list(range(0, 151, stride)) + [9, 10, 11, 99, 100, 101, 150]:
         inputs.append(ff_plan_case(rng, tier, nsteps=n, style="ff"))
-    n_plan, n_noplan, n_soup, n_enhsp, n_esoup = (150, 60, 150, 60, 40) if tier == "quick" else (1700, 500, 2500, 500, 400)
+    n_plan, n_noplan, n_soup, n_enhsp, n_esoup = (120, 60, 150, 60, 40) if tier == "quick" else (1500, 500, 2500, 500, 400)
     inputs += [ff_plan_case(rng, tier) for _ in range(n_plan)]
     inputs += [ff_noplan_case(rng, tier) for _ in range(n_noplan)]
     inputs += [ff_soup_case(rng, tier) for _ in range(n_soup)]
@@ -351,7 +352,7 @@ def enhsp_large_case(rng, target, shape):
 
 def build_large(rng, tier):
     out = []
-    targets = [8192] if tier == "quick" else [8192] * 6 + [16384] * 4 + [32768] * 2
+    targets = [8192] if tier == "quick" else [8192] * 4 + [16384] * 2
     for i, t in enumerate(targets):
         out.append(ff_large_case(rng, t, ["many-steps", "long-names", "long-header", "long-trailer"][(i + rng.randint(0, 3)) % 4]))
         out.append(enhsp_large_case(rng, t, ["long-names", "many-steps"][i % 2]))
@@ -403,7 +404,7 @@ def build_big_case(rng, enhsp, target, shape):
     per = body_chars // nkinds
     i = 0
     for k in range(nkinds):
-        st = long_step(rng) if shape != "many-steps" else rand_step(rng) + [long_word(rng)]
+        st = [long_word(rng, 40, 90) for _ in range(rng.randint(2, 4))] if shape != "many-steps" else rand_step(rng) + [long_word(rng)]
         body = " ".join(st)
         count = max(1, per // (len(body) + 8 + len(eol)))
         pre = "     " if width == 4 else rng.choice(["", " ", "\t", "step "])
@@ -468,7 +469,7 @@ def build_sequences(rng, tier):
     (renamed words, other case, steps in reverse order, a damaged plan marker), a text of another length, re-reads;
     ENHSP: the file as parse_plan left it is parsed again.  Every step is one case on the text at the path at that moment."""
     seqs = []
-    n = 16 if tier == "quick" else 250
+    n = 16 if tier == "quick" else 100
     while len(seqs) < n:
         enhsp = rng.random() < 0.4
         steps = [rand_step(rng) for _ in range(rng.randint(1, 12))]
@@ -582,6 +583,19 @@ def run(args):
     consts, facts = pre[0], pre[1]
     f_ok = facts_ok(facts)
     timing, t0 = {}, time.time()
+    header = consts_header(consts) if "plan" in consts else consts_header({"plan": "?", "valid": "?", "nosol": []})
+
+    def big_part():
+        bres = run_impl([{"op": "c19.enhsp_big" if b["enhsp"] else "c19.ff_big", "segs": b["segs"]} for b in bigs], nproc=min(8, len(bigs)))
+        bheader = "From Coq Require Import Uint63.\nFrom Verif Require Import Corr.BigText.\n" + header
+        bcases = [{"lit": big_lit(b, r), "input": {"big": b, "implementation": r, "patterns": consts}, "nontrivial": True, "witness_of": None}
+                  for b, r in zip(bigs, bres)]
+        bver, binfo = run_case_shards(PROP + "/big", "Corr.C19", [c["lit"] for c in bcases], shard_size=1, run_fn="run_big impl_consts",
+                                      header_extra=bheader)
+        return bres, bcases, bver, binfo, bheader
+    # the large cases are evaluated while the ordinary ones run (their own work directory: work/C19/big)
+    pool = concurrent.futures.ThreadPoolExecutor(max_workers=1)
+    big_future = pool.submit(big_part) if bigs else None
     jobs = [{"op": "c19.enhsp" if i["enhsp"] else "c19.ff", "text": i["text"]} for i in inputs]
     jobs += [{"op": "c19.sequence", "steps": sq["steps"]} for sq in seqs]
     raw = run_impl(jobs)
@@ -608,7 +622,6 @@ def run(args):
             payload["failing_step"] = inp["step"]
         cases.append({"lit": case_lit(inp, res), "input": payload,
                       "nontrivial": inp["nontrivial"], "witness_of": inp.get("witness_of")})
-    header = consts_header(consts) if "plan" in consts else consts_header({"plan": "?", "valid": "?", "nosol": []})
     verdicts, info = run_case_shards(PROP, "Corr.C19", [c["lit"] for c in cases], shard_size=120, run_fn="run impl_consts",
                                      header_extra=header, max_bytes=70_000)
     decide(rep, PROP, "Corr.C19", cases, verdicts, info, explain_expr="explain impl_consts %s", header_extra=header)
@@ -616,14 +629,9 @@ def run(args):
     t0 = time.time()
     cov = rep.coverage
     if bigs:
-        # LARGE files (> 64 KiB): segments in, digests out; one shard per case
+        # LARGE files (> 64 KiB): segments in, digests out; one shard per case (evaluated in the background, see big_part)
         small_counts, small_distinct = dict(cov.get("verdict_counts", {})), cov.get("distinct_nontrivial", 0)
-        bres = run_impl([{"op": "c19.enhsp_big" if b["enhsp"] else "c19.ff_big", "segs": b["segs"]} for b in bigs], nproc=min(8, len(bigs)))
-        bheader = "From Coq Require Import Uint63.\nFrom Verif Require Import Corr.BigText.\n" + header
-        bcases = [{"lit": big_lit(b, r), "input": {"big": b, "implementation": r, "patterns": consts}, "nontrivial": True, "witness_of": None}
-                  for b, r in zip(bigs, bres)]
-        bver, binfo = run_case_shards(PROP + "/big", "Corr.C19", [c["lit"] for c in bcases], shard_size=1, run_fn="run_big impl_consts",
-                                      header_extra=bheader)
+        bres, bcases, bver, binfo, bheader = big_future.result()
         n_before = len(rep.violations)
         decide(rep, PROP, "Corr.C19", bcases, bver, binfo, explain_expr="explain_big impl_consts %s", header_extra=bheader)
         for j in range(n_before, len(rep.violations)):
